@@ -171,6 +171,28 @@ func mutateTime(t *rapid.T, ts model.TimeSpec) (model.TimeSpec, string) {
 }
 
 func mutateNode(t *rapid.T, n model.NodeSpec) (model.NodeSpec, string) {
+	for _, u := range gen.UUIDSpellings {
+		if n.ID == u && rapid.IntRange(0, 2).Draw(t, "uuid-respell") > 0 {
+			// the same or a neighbouring UUID in another spelling: a different id text, a different node
+			o := rapid.SampledFrom(gen.UUIDSpellings).Draw(t, "uuid-other")
+			if o != n.ID {
+				return model.NodeSpec{Type: n.Type, ID: o}, "uuid-spelling"
+			}
+		}
+	}
+	if rapid.IntRange(0, 14).Draw(t, "uuid-named") == 0 {
+		// a blank node named after the UUID of the first node
+		if real, err := n.Build(); err == nil {
+			id := ""
+			func() {
+				defer func() { recover() }()
+				id = real.UUID().String()
+			}()
+			if id != "" {
+				return model.NodeSpec{Type: "/_", ID: id}, "named-after-uuid"
+			}
+		}
+	}
 	switch rapid.IntRange(0, 3).Draw(t, "nmut") {
 	case 0: // move the type/id boundary: /a + bc  <->  /ab + c
 		if len(n.ID) >= 2 && utf8.ValidString(n.ID[:1]) && n.ID[0] != '/' && utf8.ValidString(n.ID[1:]) && n.ID[0] < 0x80 {
